@@ -216,6 +216,31 @@ pub fn replay_one(b: &Value) -> Option<String> {
                                 return Some(format!("solve: x[{}] = {} but exact solution is {}", i, rhs[i], rat(&x[i])));
                             }
                         }
+                        // the default ordering (AMD, chosen by the engine when no permutation is supplied): without
+                        // regularisation the solution of A x = b does not depend on the ordering; an ordering under which
+                        // a pivot vanishes is reported as ZeroPivot (legitimately ordering dependent), anything else is wrong
+                        if b["reg"].as_array().unwrap().is_empty() {
+                            let signs: Vec<i8> = b["signs"].as_array().unwrap().iter().map(|v| v.as_i64().unwrap() as i8).collect();
+                            let mut bd = QDLDLSettingsBuilder::<f64>::default();
+                            bd.Dsigns(signs).regularize_enable(false);
+                            match QDLDLFactorisation::new(&A, Some(bd.build().unwrap())) {
+                                Err(QDLDLError::ZeroPivot) => {}
+                                Err(e) => return Some(format!("default (AMD) ordering: engine error {} on a matrix that factors under the supplied ordering", errname(&e))),
+                                Ok(mut fa) => {
+                                    let mut rhs: Vec<f64> = (0..n).map(|i| (i + 1) as f64).collect();
+                                    fa.solve(&mut rhs);
+                                    // (an intermediate pivot of this ordering may be tiny rather than zero: then the result is non-finite or huge, not comparable)
+                                    let dmin = fa.D.iter().fold(f64::INFINITY, |a, d| a.min(d.abs()));
+                                    if dmin > 1e-9 {
+                                        for i in 0..n {
+                                            if !(rhs[i] - rat(&x[i])).abs().le(&(1e-8 * (1.0 + rhs[i].abs().max(rat(&x[i]).abs())))) {
+                                                return Some(format!("default (AMD) ordering: solve gives x[{}] = {} but the exact solution is {}", i, rhs[i], rat(&x[i])));
+                                            }
+                                        }
+                                    }
+                                }
+                            }
+                        }
                     }
                     None
                 }
